@@ -417,6 +417,8 @@ class XPathToken(Token[ta.XPathTokenType]):
                 return cls(value)
             elif isinstance(value, UntypedAtomic):
                 try:
+                    if issubclass(cls, (AbstractDateTime, Duration)):
+                        return cls.make(value)  # cast from the lexical representation
                     return cls(value)
                 except (TypeError, ValueError):
                     pass
